@@ -15,10 +15,10 @@ PROP = "C05"
 LEVEL = "exploration"
 TECHNIQUE = "runtime monitor on parse_header and OFXTree.parse over generated (fields x layout x body x charset) files; generator truth cross-checked by independent header and body readers"
 RULE = ("v1: VERSION x SECURITY x ENCODINGxCHARSET x COMPRESSION present/absent x UIDs x separators {CRLF, LF, CR, none, blank} x 0-2 blanks "
-        "after the colon x 0-3 leading blank lines x gap between header and body {none, 1-3 separators, mixed}; v2: quote style per declaration "
+        "after the colon x 0-3 leading blank lines x gap between header and body {none, 1-3 separators, mixed}; v2: quote style per declaration and per attribute of the OFX declaration "
         "x line breaks {none, LF, CRLF} after each declaration x versions; bodies: rendered random trees whose text contains characters "
         "that differ between cp1252 / latin-1 / UTF-8 where the header names a character set. Thorough enumerates the full layout product. "
-        "A case = the file bytes; non-trivial = every case (header+body parsed and compared)")
+        "15% of the files are handed over right after a broken file (truncated inside a multi-byte character, bad header, empty) whose own outcome is not judged. A case = the file bytes; non-trivial = every case (header+body parsed and compared)")
 ASSUMPTIONS = ["ref_header.py and ref_sgml.py are correct (self-tested)",
                "UNSPECIFIED, not judged: whitespace before the first '<' / after the last '>' of the returned body (compared after strip()); "
                "non-ASCII bytes under contradictory ENCODING/CHARSET pairs (only ASCII bodies there); bytes undefined in cp1252; blanks before <?xml"]
@@ -27,9 +27,9 @@ LEVEL_TEXT = ("Exploration over the layout product: the header scanner's behavio
               "(fully in thorough) with charset-sensitive bodies, and each result is compared with two independent readers.")
 LEVEL_NOTE = "Trusts ref_header.py / ref_sgml.py. Files are built from bytes the generator controls; real FI quirks outside the listed layouts are out of scope."
 DESIGN_REF = "DESIGN.md §3 C05"
-EXHAUSTIVE = {"thorough": "full v1 layout product (5 separators x 3 colon-blank x 4 leading-blank x 6 gaps x compression x 9 encoding pairs) and v2 product (2x2 quotes x 3x3 breaks x 7 versions)"}
-MIN_COUNTERS = {"quick": {"big_bodies": 40, "mojibake_bodies": 100, "v1_files": 2500, "v2_files": 250, "nonascii_bodies": 800, "tree_checked": 2500},
-                "thorough": {"big_bodies": 150, "mojibake_bodies": 1000, "v1_files": 35000, "v2_files": 1500, "nonascii_bodies": 10000, "tree_checked": 35000}}
+EXHAUSTIVE = {"thorough": "full v1 layout product (5 separators x 3 colon-blank x 4 leading-blank x 6 gaps x compression x 9 encoding pairs) and v2 product (2 x 32 per-attribute quote styles x 3x3 breaks x 7 versions)"}
+MIN_COUNTERS = {"quick": {"big_bodies": 40, "mojibake_bodies": 100, "v1_files": 2500, "v2_files": 900, "after_broken_file": 300, "nonascii_bodies": 800, "tree_checked": 2500},
+                "thorough": {"big_bodies": 150, "mojibake_bodies": 1000, "v1_files": 35000, "v2_files": 10000, "after_broken_file": 4000, "nonascii_bodies": 10000, "tree_checked": 35000}}
 
 SEPS = {"crlf": "\r\n", "lf": "\n", "cr": "\r", "none": "", "blank": " "}
 CODECS = {"ISO-8859-1": "latin_1", "1252": "cp1252", "NONE": "utf_8"}
@@ -90,14 +90,46 @@ def v1_file(F, sep, colon_blanks, lead, gap, with_compression, body, codec, trai
 
 def v2_file(F, q1, q2, br1, br2, lead, body, trail):
     xml = f"<?xml version={q1}1.0{q1} encoding={q1}UTF-8{q1} standalone={q1}no{q1}?>"
-    ofx = "<?OFX " + " ".join(f"{n}={q2}{F[n]}{q2}" for n in ["OFXHEADER", "VERSION", "SECURITY", "OLDFILEUID", "NEWFILEUID"]) + "?>"
+    q2 = q2 * 5 if len(q2) == 1 else q2  # one quote style for the declaration, or one per attribute
+    ofx = "<?OFX " + " ".join(f"{n}={q}{F[n]}{q}" for n, q in zip(["OFXHEADER", "VERSION", "SECURITY", "OLDFILEUID", "NEWFILEUID"], q2)) + "?>"
     return (lead + xml + br1 + ofx + br2).encode("ascii") + body.encode("utf_8") + trail.encode("ascii")
+
+
+POISON = [
+    # cut inside a multi-byte character (a decoder that keeps state would carry the dangling bytes over)
+    b"OFXHEADER:100\r\nDATA:OFXSGML\r\nVERSION:160\r\nSECURITY:NONE\r\nENCODING:UNICODE\r\nCHARSET:NONE\r\nCOMPRESSION:NONE\r\nOLDFILEUID:NONE\r\nNEWFILEUID:NONE\r\n\r\n<OFX><MEMO>caf\xc3",
+    b"<?xml version=\"1.0\" encoding=\"UTF-8\"?>\n<?OFX OFXHEADER=\"200\" VERSION=\"220\" SECURITY=\"NONE\" OLDFILEUID=\"NONE\" NEWFILEUID=\"NONE\"?>\n<OFX><MEMO>\xe6\xb1",
+    b"<?xml version=\"1.0\"?><?OFX OFXHEADER=\"200\" VERSION=\"220\" SECURITY=\"NONE\" OLDFILEUID=\"NONE\" NEWFILEUID=\"NONE\"?><OFX>\xf0\x9f\x98",
+    b"OFXHEADER:100\r\nDATA:OFXSGML\r\nVERSION:1x2\r\n",
+    b"OFXHEADER:100\nDATA:OFXSGML\nVERSION:102\nSECURITY:NONE\nENCODING:USASCII\nCHARSET:BOGUS\nCOMPRESSION:NONE\nOLDFILEUID:NONE\nNEWFILEUID:NONE\n<OFX>",
+    b"", b"\n\n\n\n\n\n\n\n\n\n", b"<?xml version='1.0'?><OFX></OFX>", b"\xff\xfe<\x00O\x00F\x00X\x00>\x00",
+]
+
+
+def poison(ctx, idx):
+    """A broken file handed to the same functions first; its outcome is not judged - only that it leaves nothing behind."""
+    from ofxtools.header import parse_header
+    from ofxtools.Parser import OFXTree
+
+    bad = POISON[idx]
+    for fn in (lambda: parse_header(io.BytesIO(bad)), lambda: OFXTree().parse(io.BytesIO(bad))):
+        try:
+            fn()
+        except Exception:  # noqa
+            pass
+    ctx.count("after_broken_file")
 
 
 def check(ctx, data, kind, F, body, tree, feat):
     from ofxtools.header import parse_header
     from ofxtools.Parser import OFXTree
 
+    if ctx.replay_case:
+        if feat.get("after_broken_file") is not None:
+            poison(ctx, feat["after_broken_file"])
+    elif ctx.rng.random() < 0.15:
+        feat = dict(feat, after_broken_file=ctx.rng.randrange(len(POISON)))
+        poison(ctx, feat["after_broken_file"])
     ctx.ev()
     ctx.count(f"{kind}_files")
     case = {"file_latin1": data.decode("latin_1"), "kind": kind, "fields": F, "body": body, "feat": feat}
@@ -113,7 +145,7 @@ def check(ctx, data, kind, F, body, tree, feat):
     if rk != kind or rbody.strip() != body or any(rf.get(k) != str(v) for k, v in F.items() if k in rf or k != "COMPRESSION"):
         ctx.inconclusive_because(f"ref_header disagrees with generator ({feat}): {rf} {rbody[:40]!r}")
         return
-    tag = f"{kind}/{feat['sep']}/gap={feat['gapclass']}/nonascii={int(nonascii)}" if kind == "v1" else f"v2/q={feat['q']}/br={feat['br']}/nonascii={int(nonascii)}"
+    tag = f"{kind}/{feat['sep']}/gap={feat['gapclass']}/nonascii={int(nonascii)}" if kind == "v1" else f"v2/q={feat['q'] if len(feat['q']) == 2 else feat['q'][0] + ('m' if len(set(feat['q'][1:])) > 1 else feat['q'][1])}/br={feat['br']}/nonascii={int(nonascii)}"
     try:
         h, got = parse_header(io.BytesIO(data))
     except Exception as e:
@@ -238,8 +270,9 @@ def run_shard(ctx):
                 ctx.distinct(("big", kind, codec, align, ctx.shard))
     # v2
     brs = ["", "\n", "\r\n"]
-    v2l = list(itertools.product(['"', "'"], ['"', "'"], brs, brs, [200, 201, 202, 203, 210, 211, 220]))
-    reps = 1 if not thorough else 12
+    mixes = ["".join(m) for m in itertools.product("\"'", repeat=5)]  # quote style per attribute: 2 uniform + 30 mixed
+    v2l = list(itertools.product(['"', "'"], mixes if thorough else ['"', "'"] + rng.sample(mixes[1:-1], 6), brs, brs, [200, 201, 202, 203, 210, 211, 220]))
+    reps = 1 if not thorough else 3
     for li, (q1, q2, b1, b2, ver) in enumerate(v2l):
         if li % ctx.nshards != ctx.shard:
             continue
@@ -250,7 +283,7 @@ def run_shard(ctx):
                  "NEWFILEUID": rng.choice(["NONE", "".join(rng.choice(UIDCHARS) for _ in range(rng.randint(1, 36)))])}
             lead = rng.choice(["", "", "\n", "\r\n\r\n"])
             data = v2_file(F, q1, q2, b1, b2, lead, body, rng.choice(["", "\n"]))
-            feat = {"q": ("d" if q1 == '"' else "s") + ("d" if q2 == '"' else "s"), "br": f"{len(b1)}{len(b2)}", "lead": len(lead)}
+            feat = {"q": ("d" if q1 == '"' else "s") + "".join("d" if q == '"' else "s" for q in q2), "br": f"{len(b1)}{len(b2)}", "lead": len(lead)}
             check(ctx, data, "v2", F, body, tree, feat)
             ctx.distinct(data)
         if li % 40 == 0:
